@@ -70,6 +70,8 @@ pub enum Op {
     DeleteBatch(u8, u8),
     /// `delete_entities(&[h, h])`: fails at the repeated handle after `h` was deleted (and purged)
     DeleteBatchFailing(u8),
+    /// `World::delete_all()`
+    DeleteAll,
     DeleteDeferred(u8),
     Maintain,
     // lazy / builder entry points (C08)
@@ -843,6 +845,14 @@ impl<'c, T: Kind, U: Kind> Run<'c, T, U> {
                 }
                 self.die(*e as usize, &mut exp);
             }
+            Op::DeleteAll => {
+                self.w.delete_all();
+                let mut order: Vec<usize> = (0..self.ents.len()).filter(|e| self.alive[*e]).collect();
+                order.sort_by_key(|e| self.ents[*e].id());
+                for e in order {
+                    self.die(e, &mut exp);
+                }
+            }
             Op::DeleteBatch(a, b) => {
                 if *a >= n || *b >= n || a == b || !self.alive[*a as usize] || !self.alive[*b as usize] {
                     return None;
@@ -1240,6 +1250,13 @@ impl<'c, T: Kind, U: Kind> Run<'c, T, U> {
                 v.push(Op::SecondReader);
             }
         }
+        if matches!(p, Prop::C04 | Prop::C08 | Prop::C12) && self.alive.iter().any(|a| *a) {
+            v.push(Op::DeleteAll);
+        }
+        if p == Prop::C08 {
+            // the emission switch of a tracked storage must not change what is destroyed
+            v.push(Op::Emission(!self.emission));
+        }
         if p == Prop::C08 || p == Prop::C19 {
             v.push(Op::Maintain);
             v.push(Op::BuilderWith);
@@ -1300,6 +1317,32 @@ impl<T: Kind, U: Kind> Store<T, U> {
             }
         }
         let (key, next) = if r.viol.is_none() { (r.key(), r.enabled()) } else { (0, vec![]) };
+        // Tail probe (the world is discarded afterwards): the last operation once more. State
+        // merging by canonical key never executes an operation twice in a row when the first
+        // application leads back to a known state, so state that a defect hides outside the key
+        // (a memo of the last index, the last event, the last handle) would otherwise go unseen.
+        if r.viol.is_none() && matches!(p, Prop::C04 | Prop::C12 | Prop::C08) {
+            if let Some(last) = ops.last() {
+                let repeatable = !matches!(last, Op::BuilderWith | Op::BuilderWithTwice | Op::HugeEntry | Op::Recreate | Op::RecreateDeferred | Op::SecondReader | Op::Emission(_) | Op::LazyInsert(_));
+                if repeatable && next.contains(last) {
+                    if let Some(exp) = r.apply(last) {
+                        if T::TRACK != Track::None {
+                            if p == Prop::C12 {
+                                r.check_events(&exp, last);
+                            } else if let Some(reader) = r.reader.as_mut() {
+                                let st = r.w.write_storage::<T>();
+                                let _ = T::read_events(&st, reader);
+                            }
+                        }
+                        r.check_map();
+                        r.check_ledger();
+                        if let Some(v) = r.viol.take() {
+                            r.viol = Some(format!("{} [when the last operation is applied a second time]", v));
+                        }
+                    }
+                }
+            }
+        }
         let mut viol = r.viol.take();
         let counters = r.counters;
         let tr = r.tr;
@@ -1441,7 +1484,7 @@ impl<T: Kind, U: Kind> Store<T, U> {
                 Op::DeleteBatch(a, b) => vec![*a, *b],
                 _ => (0..r.ents.len() as u8).collect(),
             };
-            let global_u = matches!(last, Op::Maintain | Op::DeleteNow(_) | Op::DeleteBatch(..) | Op::DeleteBatchFailing(_));
+            let global_u = matches!(last, Op::Maintain | Op::DeleteNow(_) | Op::DeleteBatch(..) | Op::DeleteBatchFailing(_) | Op::DeleteAll);
             let follow = catch(|| {
                 let mut msgs: Vec<String> = vec![];
                 {
